@@ -22,22 +22,32 @@ _LITERAL = re.compile(r"^(\d+\.?\d*|\.\d+)$")
 
 
 def split_term(s):
-    """'a:b:log(a)' -> ('a', 'b', 'log(a)');  '1' -> ()"""
+    """'a:b:log(a)' -> ('a', 'b', 'log(a)');  '1' -> ();  back-quoted names are one factor and lose their quotes:
+    '`x:y`:c' -> ('x:y', 'c')"""
     if s == "1":
         return ()
-    out, depth, cur = [], 0, ""
+    out, depth, cur, quoted = [], 0, "", False
     for ch in s:
-        if ch == "(":
-            depth += 1
-        elif ch == ")":
-            depth -= 1
-        if ch == ":" and depth == 0:
+        if ch == "`":
+            quoted = not quoted
+            continue
+        if not quoted:
+            if ch == "(":
+                depth += 1
+            elif ch == ")":
+                depth -= 1
+        if ch == ":" and depth == 0 and not quoted:
             out.append(cur)
             cur = ""
         else:
             cur += ch
     out.append(cur)
     return tuple(out)
+
+
+def print_factor(f):
+    """formulaic prints a factor bare, except that a name containing ':' keeps its back-quotes"""
+    return "`%s`" % f if ":" in f and inner_variable(f) is None else f
 
 
 def inner_variable(factor):
@@ -67,7 +77,7 @@ def term_str(res):
     if res[0] == "ZERO":
         return "0"
     if res[0] == "TERM":
-        return ":".join(res[1]) if res[1] else "1"
+        return ":".join(print_factor(f) for f in res[1]) if res[1] else "1"
     return None
 
 
